@@ -152,4 +152,29 @@ def inertia (l : List (Rat × V3)) : Sym3 :=
   let o := wOuter l (com l)
   ⟨o.yy + o.zz, o.xx + o.zz, o.xx + o.yy, -o.xy, -o.xz, -o.yz⟩
 
+/-! ### radial distribution function (`compute_rdf`): `np.histogram(distances, range, bins)`, shell volumes, normalisation; π is factored out -/
+
+/-- bin edge k of `n` equal bins on `[lo, hi]` (`np.linspace(lo, hi, n + 1)[k]`) -/
+def edge (lo hi : Rat) (n k : Nat) : Rat := lo + (hi - lo) * k / n
+
+/-- `np.histogram`'s bin of a value: half-open bins `[e_k, e_{k+1})`, the last one closed; values outside the range are not counted -/
+def binIndex (lo hi : Rat) (n : Nat) (d : Rat) : Option Nat :=
+  if d < lo ∨ hi < d then none
+  else if d = hi then some (n - 1)
+  else some (((d - lo) * n / (hi - lo)).floor.toNat)
+
+def histogram (lo hi : Rat) (n : Nat) (ds : List Rat) : List Nat :=
+  (List.range n).map (fun k => (ds.filter (fun d => binIndex lo hi n d == some k)).length)
+
+/-- volume of the spherical shell between edges k and k+1, divided by π: `4/3 (e_{k+1}³ − e_k³)` -/
+def shellVolOverPi (lo hi : Rat) (n k : Nat) : Rat :=
+  4 / 3 * (edge lo hi n (k + 1) * edge lo hi n (k + 1) * edge lo hi n (k + 1) - edge lo hi n k * edge lo hi n k * edge lo hi n k)
+
+/-- `g_r[k]·π = hist[k] / (n_pairs · Σ_f 1/V_f · shellVol_k/π)` -/
+def rdfTimesPi (lo hi : Rat) (n : Nat) (nPairs : Nat) (invVolSum : Rat) (ds : List Rat) : List Rat :=
+  (List.range n).map (fun k => ((histogram lo hi n ds).getD k 0 : Rat) / ((nPairs : Rat) * invVolSum * shellVolOverPi lo hi n k))
+
+/-- bin centres `0.5·(edges[1:] + edges[:-1])` -/
+def binCentre (lo hi : Rat) (n k : Nat) : Rat := (edge lo hi n k + edge lo hi n (k + 1)) / 2
+
 end MdVerif.Descr
